@@ -6,6 +6,7 @@ set -e
 cd "$(dirname "$0")"
 export CARGO_NET_OFFLINE=true CARGO_TARGET_DIR="$PWD/.cache/target" RUST_BACKTRACE=0
 mkdir -p .cache evidence
+./tools/gen_workspace.sh
 (cd harness && cargo build --offline --workspace 2>&1 | tail -3)
 ./.cache/target/debug/rs2v /repo coq/Gen
 cd coq
